@@ -10,3 +10,47 @@ package dtls
 //@ noinline
 //@ ensures wrapper-only: c.conn == old(c.conn)
 //@ end
+
+// The same for the other connection callbacks used while a peer KeyUpdate is processed.
+//@ func handshakeConn.Notify
+//@ noinline
+//@ ensures wrapper-only: c.conn == old(c.conn)
+//@ end
+
+//@ func handshakeConn.HandleQueuedPackets
+//@ noinline
+//@ ensures wrapper-only: c.conn == old(c.conn)
+//@ end
+
+// S13(c): the DTLS 1.3 state object of the connection.
+//@ define S13(c) c.state.(*dtlsstate.State13)
+//@ define IS13(c) typeIs(c.state, "*github.com/pion/dtls/v3/internal/state.State13")
+//@ define TG0() c.state.(*dtlsstate.State13).TrafficKeys.Read(0)
+
+// commitLocalKeyUpdate: the acknowledged write generation becomes current only if it is the
+// successor of the current one (validateNextWriteGeneration, contract in verif_contracts.go); then the
+// sending epoch advances by exactly one. On any error neither keys nor epoch change.
+
+//@ func Conn.commitLocalKeyUpdate
+//@ watch validateNextWriteGeneration TrafficKeyState.Install Common.SetLocalEpoch TrafficKeyState.CurrentWrite
+//@ requires args: c != nil
+//@ requires state13: IS13(c) ==> nonNilPayload(c.state) && S13(c).Common != nil
+//@ ensures not-dtls13: !IS13(c) ==> result != nil && !called("TrafficKeyState.Install") && !called("Common.SetLocalEpoch")
+//@ ensures no-keys: IS13(c) && old(S13(c).TrafficKeys) == nil ==> result != nil && !called("TrafficKeyState.Install") && !called("Common.SetLocalEpoch")
+//@ ensures validated: called("TrafficKeyState.Install") || called("Common.SetLocalEpoch") ==> called("validateNextWriteGeneration") && isNil(retErr("validateNextWriteGeneration", 0))
+//@ ensures validated-against-current: called("validateNextWriteGeneration") ==> called("TrafficKeyState.CurrentWrite")
+//@    && argAs("validateNextWriteGeneration", 0, generation) == retAs("TrafficKeyState.CurrentWrite", 0, generation)
+//@    && argAs("validateNextWriteGeneration", 1, generation) == generation
+//@    && argAs("validateNextWriteGeneration", 2, generation.Epoch) == old(S13(c).Common.LocalEpoch())
+//@ ensures rejected-unchanged: result != nil ==> !called("TrafficKeyState.Install") && !called("Common.SetLocalEpoch")
+//@    && (IS13(c) ==> S13(c).Common.LocalEpoch() == old(S13(c).Common.LocalEpoch()))
+//@ ensures rejected-is-validation-error: result != nil && called("validateNextWriteGeneration") ==> sameRef(result, retErr("validateNextWriteGeneration", 0))
+//@ ensures committed-installs-write-only: result == nil ==> ncalls("TrafficKeyState.Install") == 1
+//@    && argAs("TrafficKeyState.Install", 0, S13(c).TrafficKeys) == old(S13(c).TrafficKeys)
+//@    && argAs("TrafficKeyState.Install", 1, generation) == generation && argAs("TrafficKeyState.Install", 2, generation) == nil
+//@ ensures committed-epoch-plus-one: result == nil ==> generation != nil && old(S13(c).Common.LocalEpoch()) < 65535
+//@    && S13(c).Common.LocalEpoch() == old(S13(c).Common.LocalEpoch()) + 1 && S13(c).Common.LocalEpoch() == generation.Epoch
+//@ ensures committed-epoch-set-once: result == nil ==> ncalls("Common.SetLocalEpoch") == 1 && calledBefore("TrafficKeyState.Install", "Common.SetLocalEpoch")
+//@ ensures remote-epoch-untouched: IS13(c) ==> S13(c).Common.RemoteEpoch() == old(S13(c).Common.RemoteEpoch())
+//@ ensures unlocked: !held("Conn.writeLock") && !held("Conn.lock")
+//@ end
